@@ -58,7 +58,7 @@ class IdModel:
         return mid
 
 
-OPS = ['new', 'shared-pair', 'copy', 'slice', 'op-result', 'write', 'promote', 'v>>w', 'Table(dict)', 'row-slice', 'row-mask', 'setattr', 'drop-vector', 'drop-table',
+OPS = ['new', 'shared-pair', 'copy', 'slice', 'full-slice', 'op-result', 'write', 'promote', 'v>>w', 'Table(dict)', 'row-slice', 'row-mask', 'setattr', 'drop-vector', 'drop-table',
        'empties', 'self-write', 'view-write', 'cell-write', 'Table(list)', 'colsel', 'sort', 'join']
 
 
@@ -111,6 +111,8 @@ def step(ctx, op, p):
         if s is not None: S.append(s.copy())
     elif op == 'slice':
         if s is not None: S.append(s[0:2])
+    elif op == 'full-slice':
+        if s is not None: S.append(s[:] if p else s[0:len(s) + 5])
     elif op == 'op-result':
         if s is not None and len(s): S.append(s + 1)
     elif op == 'write':
@@ -161,6 +163,10 @@ def step(ctx, op, p):
             return checked_write(ctx, 'table cell', col, lambda: t.__setitem__((0, 0), 600 + k))
     else:
         raise ValueError(op)
+    if op in ('new', 'copy', 'slice', 'full-slice', 'op-result') and S:
+        # fresh vectors, copies, slices and operation results share storage with no other live vector
+        shared = ctx.partners(S[-1])
+        if shared: return 'the vector produced by %s shares its storage with %s' % (op, shared)
     return None
 
 
@@ -246,7 +252,7 @@ def obligations(tier):
     prefix = ['new', 'Table(dict)']       # every history starts with one live vector and one live table
     for o0 in range(len(OPS)):
         obs.append(dict(name='pinned[H=2,first=%s]' % OPS[o0], fn='h_hist', config={'o0': o0, 'H': 2, 'prefix': prefix, 'pinned': True, 'maxwhich': 11}, budget=150 if q else 400,
-                        bounds='prefix new + Table(dict); first operation fixed per job, every second operation of the 22-operation alphabet, 2 operand choices each; every live vector probed with '
+                        bounds='prefix new + Table(dict); first operation fixed per job, every second operation of the 23-operation alphabet, 2 operand choices each; every live vector probed with '
                                'two writes; then the storage of a brand-new vector (and of a fresh copy) receives the identity of dead storage #0..11 (solver-chosen) and must be writable',
                         smoke=[[o0, 5, 0, 0, 0, 0, -2, 0], [o0, 7, 0, 0, 1, 0, -2, 1]]))
     firsts = [OPS.index(x) for x in ('v>>w', 'setattr', 'Table(list)', 'shared-pair', 'drop-table', 'write')] if q else list(range(len(OPS)))
